@@ -16,7 +16,8 @@ PARALLEL = True
 PROOF_TIMEOUT = 1500
 ALLOWED_AXIOMS = ()
 RULE = ('one request against one AuthTktCookieHelper configuration: a cookie value (issued by the real helper and then '
-        'kept / edited / spliced / re-cased / re-quoted, issued under another secret, algorithm or address, signed '
+        'kept / edited / spliced / re-cased / re-quoted / given a non-ASCII character (each UTF-8 length class, literal or '
+        'percent-escaped) in one chosen field, issued under another secret, algorithm or address, signed '
         'foreign fields, or garbage) x clock (incl. issue+timeout+{-1,0,1}, issue+reissue_time+{-1,0,1}) x a sequence '
         '(whole and +0.5 s) x a sequence of <= 5 identify/remember/forget calls, response callbacks run, every issued cookie fed back into a fresh '
         'identify; non-trivial = the request carries a cookie that reaches the digest comparison (fields parse) or the '
